@@ -19,7 +19,8 @@ import subprocess
 import sys
 
 VERIF = os.path.dirname(os.path.dirname(os.path.abspath(__file__)))
-SRC = "/repo/oxidize-pdf-core/src/batch"
+REPO = os.environ.get("VERIF_REPO", "/repo")
+SRC = os.path.join(REPO, "oxidize-pdf-core", "src", "batch")
 DST = os.path.join(VERIF, "batchsim", "src", "batch")
 EXPECTED = ["job.rs", "mod.rs", "progress.rs", "result.rs", "worker.rs"]
 # file -> (needle, minimum occurrences in the non-test part)
@@ -120,10 +121,13 @@ def main():
             if m:
                 print(f"TIE-BROKEN {f}: `{m.group(0)}` in the non-test part is not covered by the substitutions (threads/locks outside the controlled scheduler)")
                 ok = False
-        header = f"// GENERATED by tools/translate_c22.py from {SRC}/{f} -- do not edit\n"
+        header = f"// GENERATED by tools/translate_c22.py from oxidize-pdf-core/src/batch/{f} -- do not edit\n"
         out = header + out
         rel = os.path.join("batchsim", "src", "batch", f)
         old = committed(rel)
+        path = os.path.join(DST, f)
+        if old is None and os.path.exists(path):
+            old = open(path, encoding="utf-8", errors="replace").read()
         if old is not None and old != out:
             a, b = old.split("\n"), out.split("\n")
             changed = sum(1 for x, y in zip(a, b) if x != y) + abs(len(a) - len(b))
